@@ -202,6 +202,17 @@ class Engine:
         new = fresh('ins', p.heap.fsort(fld)); x = val.term; ARR_SIG[new.decl().name()] = _canon_arr(it)
         p.facts.append(Schematic(1, lambda k, new=new, it=it, q=q, x=x: new[k] == If(k < q, it[k], If(k == q, x, it[k - 1])), 'list.insert'))
         p.heap.store(v.term, fld, new); p.heap.store(v.term, '$len', n + 1)
+    def lremove(self, v, x, p, line):
+        """list.remove(x): removes the FIRST occurrence; ValueError when there is none (obligation `no-ValueError@line`)"""
+        ek = elem_kind(v.kind); fld = items_field(ek); n = self.llen(v, p); it = self.litems(v, p); k0 = fresh('rm_at', I)
+        present = self.contains(v, x, p)
+        self.emit(p, f'no-ValueError@{line}', present, line); p.pc.append(present)
+        p.pc.append(And(0 <= k0, k0 < n, it[k0] == x))                                                      # the first occurrence (ghost)
+        p.facts.append(Schematic(1, lambda j, it=it, k0=k0, x=x: Implies(And(0 <= j, j < k0), it[j] != x), 'list.remove:first'))
+        self.frame(p, v.term, fld, line); self.frame(p, v.term, '$len', line)
+        new = fresh('rm', p.heap.fsort(fld)); ARR_SIG[new.decl().name()] = _canon_arr(it)
+        p.facts.append(Schematic(1, lambda j, new=new, it=it, k0=k0: new[j] == If(j < k0, it[j], it[j + 1]), 'list.remove'))
+        p.heap.store(v.term, fld, new); p.heap.store(v.term, '$len', n - 1)
     def contains(self, v, x, p):
         """`x in list`: ghost witness form (exists k) — returns a Bool term with definitional facts"""
         n = self.llen(v, p); it = self.litems(v, p); b = fresh('in', Bo); w = fresh('in_w', I)
@@ -480,6 +491,7 @@ class Engine:
             if recv.kind.startswith('list['):
                 if f.attr == 'append': self.lappend(recv, self.ev(args[0], p), p, line); return NONE
                 if f.attr == 'insert': self.linsert(recv, self.ev(args[0], p).term, self.ev(args[1], p), p, line); return NONE
+                if f.attr == 'remove': self.lremove(recv, self.ev(args[0], p).term, p, line); return NONE
                 if f.attr == 'tolist':           # fresh python list with the same items
                     ek = elem_kind(recv.kind); r = p.heap.new(p, 'lst')
                     p.heap.store(r, items_field(ek), self.litems(recv, p)); p.heap.store(r, '$len', self.llen(recv, p)); return V(recv.kind, r)
